@@ -122,6 +122,15 @@ def allow_args(func: F) -> F:
             )
             raise ValueError(msg)
 
+        # Check that the keyword arguments are exactly the parameters that are not
+        # filled positionally
+        expected_kwargs = list(parameters)[len(args) :]
+        if set(kwargs) != set(expected_kwargs):
+            msg = (
+                f"Expected keyword arguments: {expected_kwargs}, got: {list(kwargs)}."
+            )
+            raise ValueError(msg)
+
         # Convert all arguments to positional arguments in correct order
         positional = list(args) + convert_kwargs_to_args(kwargs, list(parameters))
 
